@@ -58,51 +58,71 @@ def isCmp : BinOp → Bool
   | .eq | .ne | .gt | .ge | .lt | .le => true
   | _ => false
 
+def intPow (i : Int) : Nat → Int
+  | 0 => 1
+  | n + 1 => intPow i n * i
+
+def cmpInt (op : BinOp) (x y : Int) : Bool :=
+  match op with
+  | .eq => x == y | .ne => x != y | .gt => decide (x > y) | .ge => decide (x ≥ y) | .lt => decide (x < y) | .le => decide (x ≤ y)
+  | _ => false
+
+/-- `i <op> j` for two Python ints (bools count as ints). -/
+def binopInt (op : BinOp) (i j : Int) : Out :=
+  match op with
+  | .add => .val (.a (.int (i + j)))
+  | .sub => .val (.a (.int (i - j)))
+  | .mul => .val (.a (.int (i * j)))
+  | .div => if j = 0 then .err .zeroDivision else .val (.a (.flt (mkRat i 1 / mkRat j 1)))
+  | .floorDiv => if j = 0 then .err .zeroDivision else .val (.a (.int (Int.fdiv i j)))
+  | .mod => if j = 0 then .err .zeroDivision else .val (.a (.int (Int.fmod i j)))
+  | .pow =>
+    if 0 ≤ j then .val (.a (.int (intPow i j.toNat)))
+    else if i = 0 then .err .zeroDivision
+    else .val (.a (.flt (1 / mkRat (intPow i (-j).toNat) 1)))
+  | .lshift => if j < 0 then .err .valueError else .val (.a (.int (i * 2 ^ j.toNat)))
+  | .rshift => if j < 0 then .err .valueError else .val (.a (.int (Int.fdiv i (2 ^ j.toNat))))
+  | cmp => .val (.a (.bool (cmpInt cmp i j)))
+
+/-- `x <op> y` when at least one operand is a Python float (the result is a float, or a bool). -/
+def binopFlt (op : BinOp) (x y : Rat) : Out :=
+  match op with
+  | .add => .val (.a (.flt (x + y)))
+  | .sub => .val (.a (.flt (x - y)))
+  | .mul => .val (.a (.flt (x * y)))
+  | .div => if y = 0 then .err .zeroDivision else .val (.a (.flt (x / y)))
+  | .floorDiv => if y = 0 then .err .zeroDivision else .val (.a (.flt ((x / y).floor : Int)))
+  | .mod => if y = 0 then .err .zeroDivision else .val (.a (.flt (x - y * ((x / y).floor : Int))))
+  | .pow =>
+    if y.den = 1 then
+      if 0 ≤ y.num then .val (.a (.flt (natPow x y.num.toNat)))
+      else if x = 0 then .err .zeroDivision
+      else .val (.a (.flt (1 / natPow x (-y.num).toNat)))
+    else .err .unmodelled     -- irrational results are outside the model
+  | .lshift => .err .typeError
+  | .rshift => .err .typeError
+  | cmp => .val (.a (.bool (cmpOp cmp x y)))
+
 /-- `a <op> b` for two non-None scalars. -/
 def binopAtom (op : BinOp) (a b : Atom) : Out :=
-  match a.toNum, b.toNum with
-  | some x, some y =>
-    let fl := x.isFloat || y.isFloat
-    match op with
-    | .add => .val (.a (mkNum fl (x.r + y.r)))
-    | .sub => .val (.a (mkNum fl (x.r - y.r)))
-    | .mul => .val (.a (mkNum fl (x.r * y.r)))
-    | .div => if y.r = 0 then .err .zeroDivision else .val (.a (.flt (x.r / y.r)))
-    | .floorDiv =>
-      if y.r = 0 then .err .zeroDivision
-      else .val (.a (if fl then .flt ((x.r / y.r).floor : Int) else .int (x.r / y.r).floor))
-    | .mod =>
-      if y.r = 0 then .err .zeroDivision
-      else .val (.a (mkNum fl (x.r - y.r * ((x.r / y.r).floor : Int))))
-    | .pow =>
-      if y.r.den = 1 then
-        -- integer exponent
-        if 0 ≤ y.r.num then .val (.a (mkNum fl (natPow x.r y.r.num.toNat)))
-        else if x.r = 0 then .err .zeroDivision
-        else .val (.a (.flt (1 / natPow x.r (-y.r.num).toNat)))
-      else .err .unmodelled     -- irrational results are outside the model
-    | .lshift =>
-      match a.toInt?, b.toInt? with
-      | some i, some j => if j < 0 then .err .valueError else .val (.a (.int (i * 2 ^ j.toNat)))
-      | _, _ => .err .typeError
-    | .rshift =>
-      match a.toInt?, b.toInt? with
-      | some i, some j => if j < 0 then .err .valueError else .val (.a (.int (Int.fdiv i (2 ^ j.toNat))))
-      | _, _ => .err .typeError
-    | cmp => .val (.a (.bool (cmpOp cmp x.r y.r)))
+  match a.toInt?, b.toInt? with
+  | some i, some j => binopInt op i j
   | _, _ =>
-    -- at least one operand is a string (None never reaches here)
-    match op, a, b with
-    | .add, .str s, .str t => .val (.a (.str (s ++ t)))
-    | .eq, .str s, .str t => .val (.a (.bool (s == t)))
-    | .ne, .str s, .str t => .val (.a (.bool (s != t)))
-    | .eq, _, _ => .val (.a (.bool false))
-    | .ne, _, _ => .val (.a (.bool true))
-    | .lt, .str s, .str t => .val (.a (.bool (s < t)))
-    | .gt, .str s, .str t => .val (.a (.bool (t < s)))
-    | .le, .str s, .str t => .val (.a (.bool (!(t < s))))
-    | .ge, .str s, .str t => .val (.a (.bool (!(s < t))))
-    | _, _, _ => .err .typeError
+    match a.toNum, b.toNum with
+    | some x, some y => binopFlt op x.r y.r
+    | _, _ =>
+      -- at least one operand is a string (None never reaches here)
+      match op, a, b with
+      | .add, .str s, .str t => .val (.a (.str (s ++ t)))
+      | .eq, .str s, .str t => .val (.a (.bool (s == t)))
+      | .ne, .str s, .str t => .val (.a (.bool (s != t)))
+      | .eq, _, _ => .val (.a (.bool false))
+      | .ne, _, _ => .val (.a (.bool true))
+      | .lt, .str s, .str t => .val (.a (.bool (s < t)))
+      | .gt, .str s, .str t => .val (.a (.bool (t < s)))
+      | .le, .str s, .str t => .val (.a (.bool (!(t < s))))
+      | .ge, .str s, .str t => .val (.a (.bool (!(s < t))))
+      | _, _, _ => .err .typeError
 
 /-- `a <op> b` on pattern values, with the operators' `None`-propagation:
     `None if a is None or b is None else a <op> b`.  Tuples: only `==`/`!=`/`+` are modelled. -/
